@@ -1,6 +1,6 @@
 (* C05 Invalid input is refused, with the matching error, however it is spelled *)
 Load "coq/props/Hdr".
-From PM Require Import Lemmas Segs C02 Lang C05 C05b C08rel Final.
+From PM Require Import Lemmas Segs C02 Lang C05 C05b C08rel Final Alpha.
 Lemma src_cfg_ok : cfg_ok cfg. Proof. sc. Qed.
 (* never accepted: an accepted string is a well-formed skeleton all of whose checks succeed (every shape) *)
 Theorem C05_never_accepted : forall (T E : Type) (sh : shape T E) s x, parse cfg sh s = Ok x -> exists r, WFr cfg r /\ s = asm r /\ checks cfg sh r = Ok x.
@@ -110,3 +110,10 @@ Print Assumptions C05_hidden_slash_encoded_dot_or_bad_utf8_in_subpath.
 Theorem C05_subpath_is_that_loop : forall s, decode_subpath s = rebuild_segs (split c_slash (trim c_slash s)) (fun s => is_empty s || is_dotseg s) (fun d => mem c_slash d || is_dotseg d) [].
 Proof. reflexivity. Qed.
 Print Assumptions C05_subpath_is_that_loop.
+(* "syntactically invalid type" and "invalid key" mean what the property says: the alphabets read from the source are the documented ones *)
+Theorem C05_invalid_type_means_outside_the_documented_alphabet : forall t, valid_type cfg t = doc_valid_type t.
+Proof. apply valid_type_is_documented. vm_compute. reflexivity. Qed.
+Print Assumptions C05_invalid_type_means_outside_the_documented_alphabet.
+Theorem C05_invalid_key_means_outside_the_documented_alphabet : forall k, valid_key cfg k = doc_valid_key k.
+Proof. apply valid_key_is_documented. vm_compute. reflexivity. Qed.
+Print Assumptions C05_invalid_key_means_outside_the_documented_alphabet.
